@@ -131,6 +131,18 @@ class FullWorld:
             return "lost"
         return None
 
+    natural = False
+
+    def go_natural(self):
+        """from now on the eventual queues run as they do in production: a turn runs *everything* queued for it, in order -
+        the calls the model schedules one by one (Connector.accept(), a loss being noticed) no longer wait for the harness, and
+        share their turn with whatever else was queued (results of get_*() calls, errors at close)"""
+        self.natural = True
+        for n in ("L", "F"):
+            eq = self._eq(n)
+            if eq._calls and not eq._timer:
+                eq._timer = reactor.callLater(0, eq._turn)
+
     def run_auto_timers(self):
         """run every due timer; eventual-queue calls that the model schedules explicitly stay queued"""
         for _ in range(2000):
@@ -140,7 +152,7 @@ class FullWorld:
             dc = due[0]
             owner = getattr(dc.func, "__self__", None)
             eqs = {id(self._eq(n)): n for n in ("L", "F")}
-            if id(owner) in eqs and getattr(dc.func, "__name__", "") == "_turn":
+            if id(owner) in eqs and getattr(dc.func, "__name__", "") == "_turn" and not self.natural:
                 eq = owner
                 held = [c for c in eq._calls if self._held_eq_call(c)]
                 eq._calls = [c for c in eq._calls if not self._held_eq_call(c)]
@@ -357,9 +369,14 @@ class FullWorld:
         elif a == "Stop":
             self.stop_called[x] = len(self.schedule)
             # (an application with get_*() calls outstanding when it - or its peer - closes)
+            # (issued in the same reactor turn as the close: nothing - no eventual-queue turn either - runs in between, so an
+            # answer that is already there shares its turn with whatever Dilation had waiting)
             for who, kind in self.gets_before_stop:
-                mb.apply({"a": "AppGet", "c": who, "kind": kind})
+                mb._do_AppGet({"a": "AppGet", "c": who, "kind": kind})
             mb.apply({"a": "AppClose", "c": x})
+            if getattr(self, "natural_after_stop", False) and not self.natural:
+                # whatever was waiting for its turn when close() was called now runs as production runs it (go_natural)
+                self.go_natural()
         self.run_auto_timers()
         self._new_attempts()
         self.pump_mailbox()
@@ -472,6 +489,8 @@ class FullWorld:
     units_first = False
 
     def _run_out_turns(self):
+        if self.natural:
+            return False
         for n in ("L", "F"):
             if self._run_eq_call(n, "accept") or self._run_eq_call(n, "lost"):
                 while self._run_eq_call(n, "lost"):
@@ -631,9 +650,10 @@ BENIGN = ("no transition for MethodicalInput(method=<function Connector.accept",
           "no transition for MethodicalInput(method=<function Connector.add_candidate")
 
 
-def replay_behaviour(tid, states, no_listen=(), then_stop=(), track=False, gets_before_stop=()):
+def replay_behaviour(tid, states, no_listen=(), then_stop=(), track=False, gets_before_stop=(), after=None):
     w = FullWorld(variant=tid, no_listen=no_listen, track=track)
     w.gets_before_stop = tuple(gets_before_stop)
+    w.natural_after_stop = bool(track)
     w.traffic = (tid % 2 == 0)
     w.frag = tid % 9                          # most replays fragment the handshake units (FullWorld.deliver_unit)
     drift = None
@@ -655,6 +675,13 @@ def replay_behaviour(tid, states, no_listen=(), then_stop=(), track=False, gets_
                     d.append("%s.closed: spec=%s real=%s" % (n, ss[n]["closed"], rs[n]["closed"]))
             if d:
                 drift = {"step": i, "action": list(la), "diff": d[:5]}
+    if after is not None:
+        try:
+            after(w)
+        except Exception as e:
+            w.internal.append("after: %r" % (e,))
+    if track and not w.natural:
+        w.go_natural()
     for x in then_stop:
         # beyond the behaviour: the application closes now (judged at rest only)
         try:
@@ -719,11 +746,35 @@ def app_events_family(wd, prop, quick, seed):
         goals["both_stop"] = "stopReq.L /\\ stopReq.F /\\ nlinks >= 1"
         goals["stop_with_two_links_up"] = ("\\E x \\in Sides : stopReq[x] /\\ last[1] = \"Stop\" /\\ "
                                            "Cardinality({i \\in LinkIds : links[i].endst[x] = \"up\"}) >= 2")
+    # an accept() queued for a Connector that has been replaced meanwhile (it will raise when its turn comes) - and in that
+    # very turn the application's messages arrive through the mailbox
+    goals["stale_accept_queued"] = "\\E x \\in Sides : accepts[x] # <<>> /\\ Head(accepts[x]).gen < cgen[x]"
     wit, unreached = common.witnesses(wd, "DilationL3", dict(MaxLinks=3, MaxCuts=1, Dilaters=both, AllowStop=both, NoListen=set()),
                                       goals, "MC_%s_appgoal" % prop, timeout=900)
     out = []
     tid = 700000
+
+    def messages_now(w):
+        # both applications are waiting for a message (their get_message() is outstanding, as always in this world) and send
+        # two each; the frames arrive while Dilation's calls are waiting for their turn
+        for k in range(2):
+            for x in ("L", "F"):
+                w.mb.apply({"a": "AppSend", "c": x, "data": ("m:%s:%d" % (x, k)).encode().hex()})
+            w.pump_mailbox()
     for g, tr in wit:
+        if g == "stale_accept_queued":
+            for then_stop in ((), ("L", "F")):
+                tid += 1
+                try:
+                    w, rec, drift = replay_behaviour(tid, tr, then_stop=list(then_stop), track=True, after=messages_now)
+                except Exception as e:
+                    out.append((None, {"goal": g, "error": repr(e)[:200]}))
+                    continue
+                mrec = w.mailbox_record
+                mrec["tid"] = tid
+                mrec["origin"] = "family:full-stack:" + g
+                out.append((mrec, {"goal": g, "schedule": w.schedule, "after": "messages_now", "then_stop": list(then_stop)}))
+            continue
         for gets in ((("L", "message"), ("L", "message"), ("L", "versions"), ("F", "message"), ("F", "versions")),
                      (("F", "message"), ("L", "verifier"), ("L", "message"))):
             for then_stop in ((), ("L", "F")):
